@@ -39,13 +39,13 @@ HARNESSES = [
     ("canary_get_range", "canary", "get_range", None),
 ]
 
-TRUSTED = dict(VL.STUB_TRUST)
-TRUSTED.update({
+TRUSTED = {
     r"kani::assume\(lo <= r && r <= hi\)": "O9: rand's documented contract for Rng::random_range(lo..=hi): the result r satisfies lo <= r <= hi "
                                            "(and it panics on an empty range: `lo <= hi` is asserted, not assumed). Pcg64/seed_from_u64 determinism is rand's.",
     r"kani::assume\(w <= 64\)": "harness precondition: handle width <= 64 (doc comment of random_table::get; wider element types are outside this unit)",
     r"kani::assume\(len <= 8\)": "bound of the derive_seed stand-in: handle names of at most 8 octets",
-})
+}
+TRUSTED.update(VL.STUB_TRUST)
 
 
 def scan_seed(it):
